@@ -433,6 +433,10 @@ func (s *keystore) empty(ctx context.Context, d ds.Batching) error {
 		if ctx.Err() != nil {
 			return ctx.Err()
 		}
+		// Check the result's error first: the batch handling below reuses err.
+		if err != nil {
+			return fmt.Errorf("cannot read query result from keystore: %w", err)
+		}
 		if writeCount >= s.batchSize {
 			writeCount = 0
 			if err = batch.Commit(ctx); err != nil {
@@ -443,9 +447,6 @@ func (s *keystore) empty(ctx context.Context, d ds.Batching) error {
 			if err != nil {
 				return err
 			}
-		}
-		if err != nil {
-			return fmt.Errorf("cannot read query result from keystore: %w", err)
 		}
 		if err = batch.Delete(ctx, ds.NewKey(res.Key)); err != nil {
 			return fmt.Errorf("cannot delete key from keystore: %w", err)
